@@ -37,6 +37,8 @@ for d in sorted(glob.glob(os.path.join(root, "seeded", "C*-*"))):
     meta = {
         "id": mid, "property": (re.match(r"C\d+", str(a.get("property", ""))) or re.match(r"C\d+", mid)).group(0),
         "summary": a.get("summary"), "needs": a.get("needs"), "demo_cmd": a.get("demo_cmd"),
+        # the same demonstration from the copy kept here (run from the root of a worktree with patch.diff applied)
+        "demo_cmd_from_seeded": (a.get("demo_cmd") or "").replace("/tmp/mutants/" + mid.replace("-", "/") + "/", "/verif/seeded/" + mid + "/"),
         "confirmed_by_coordinator": confirmed,
         "what_i_ran": "tools/confirm_mutant.sh: scratch worktree of /repo HEAD, git apply patch.diff, go build ./..., go test of the touched packages (docker-only failures ignored), demonstration with the patch (must fail) and without it (must pass); see confirm.log, demo_with_patch.log, demo_without_patch.log. Then tools/try_mutant.sh <check> patch.diff = VERIF_REPO=<scratch worktree> ./check <check>.",
         "detection": det.get(mid, {}),
